@@ -40,7 +40,7 @@ def target_ops(ctx, bs):
     ]
     writes = [
         ["open 1 - %s rw" % A, "seek 1 %d" % (bs - 10), "write 1 9 40", "seek 1 0", "read 1 60 hex", "close 1"],
-        ["open 1 - %s w" % hexs(b"newfile"), "write 1 10 %d" % (2 * bs + 1), "close 1"],
+        ["open 1 - %s w" % hexs(b"newfile"), "write 1 10 %d" % (2 * bs + 1), "flush 1", "close 1"],
         ["mkdir - %s" % hexs(b"newdir"), "rm %s %s" % (D, B), "mv - %s %s %s" % (A, D, hexs(b"moved"))],
         ["open 1 - %s rw" % A, "trunc 1 %d" % (10 * bs), "close 1", "comment - %s %s" % (A, hexs(b"hello"))],
     ]
@@ -143,6 +143,99 @@ def seek_then_modify(ctx):
                     return
 
 
+def burst_and_retry(ctx):
+    """(a) a burst: TWO consecutive device reads of a seek call fail, then the device is healthy again - the table-driven seek fails, and so does
+    the first step of the OFS fallback; a seek that still reports success must leave the position it reports: the read after it returns the true
+    bytes.  (b) retry: a write that came back short because the read of the next block failed is retried by the caller (the rest of the bytes,
+    no seek in between), or - if the library refuses the retry - after a seek to the reported position; the file read back through a new handle
+    must be the fault-free result of writing the same bytes at the same positions."""
+    rng = ctx.rng
+    F = hexs(b"burstfile")
+    for flav in ([0, 4, 1] if ctx.tier == "quick" else gen.FLAVOURS):
+        bs = 512 if flav & 1 else 488
+        size = 100 * bs
+        base = gen.dev_create("DD", flav) + ["mountdev 0", "mount 0 0", "open 0 - %s w" % F, "write 0 7 %d" % size, "close 0"]
+        # true content
+        Lt = base + ["open 5 - %s r" % F] + ["read 5 4096 hex"] * (size // 4096 + 1) + ["close 5"]
+        et = expected(ctx, Lt)
+        true = b""
+        for k_ in range(len(base) + 2, len(base) + 2 + size // 4096 + 1):
+            d_ = common.kv(et.get(k_, ""))[1].get("data", "-")
+            true += bytes.fromhex(d_) if d_ not in ("-", "") else b""
+        if len(true) != size:
+            ctx.notes.append("burst_and_retry: reference content not computed (flavour %d)" % flav)
+            continue
+        # (a) bursts of two failing reads inside a seek
+        targets = [bs + 24, 3 * bs, 72 * bs + 5, 75 * bs + 100, 10] if ctx.tier == "quick" else [bs + 24, 2 * bs - 1, 3 * bs, 71 * bs + 9, 72 * bs + 5, 73 * bs, 75 * bs + 100, 99 * bs + 7, 10]
+        jobs = []
+        for tg in targets:
+            for k in (1, 2, 3):
+                L = base + ["open 1 - %s r" % F, "read 1 %d" % (5 * bs), "fault rd %d 2" % k, "seek 1 %d" % tg, "fault clear", "read 1 16 hex", "close 1", "umount", "umountdev"]
+                jobs.append((tg, k, L))
+
+        def one(job):
+            tg, k, L = job
+            rc, out, err, wd = common.run_script(ctx, "\n".join(L) + "\n", timeout=120)
+            import shutil
+            shutil.rmtree(wd, ignore_errors=True)
+            return rc, out
+        for (tg, k, L), (rc, out) in zip(jobs, common.pmap(one, jobs)):
+            res = common.parse_results(out)
+            ctx.count(("burst-seek", flav, tg, k))
+            ctx.bump("fault:burst-seek")
+            inp = {"flavour": flav, "seek_target": tg, "fault": "reads #%d and #%d of the seek call fail, then the device is healthy" % (k, k + 1), "script": L}
+            if rc != 0:
+                ctx.fail("crash", "crash / invalid access (exit %d) after two injected device read failures during a seek" % rc, inp, actual=out[-2:])
+                continue
+            sk = (res.get(len(base) + 4) or ["?"])[-1]
+            rd = (res.get(len(base) + 6) or ["?"])[-1]
+            if not sk.startswith("ok") or not rd.startswith("ok"):
+                continue
+            d = common.kv(rd)[1]
+            nn, pp = int(d.get("n", "0")), int(d.get("pos", "0"))
+            if nn > 0 and d.get("data") and bytes.fromhex(d["data"]) != true[pp - nn:pp]:
+                ctx.fail("oracle", "a read call returned bytes that differ from the file's true content at that offset (after a seek during which two device reads failed and which "
+                                   "reported success)", dict(inp, offset=pp - nn, count=nn), expected=true[pp - nn:pp].hex(), actual=d["data"])
+        # (b) a short write retried
+        jobs = []
+        for blk in ([3, 75, 80] if ctx.tier == "quick" else [1, 3, 71, 72, 73, 75, 80, 98]):
+            p0 = (blk + 1) * bs - 10
+            ref = base + ["open 1 - %s rw" % F, "seek 1 %d" % p0, "write 1 9 10", "write 1 10 10", "close 1", "open 5 - %s r" % F, "read 5 %d" % (size + 10), "close 5", "umount", "umountdev"]
+            for k in (1, 2, 3, 4):
+                L = base + ["open 1 - %s rw" % F, "seek 1 %d" % p0, "fault rd %d" % k, "write 1 9 20", "fault clear", "write 1 10 10", "seek 1 %d" % (p0 + 10), "write 1 10 10",
+                            "close 1", "open 5 - %s r" % F, "read 5 %d" % (size + 10), "close 5", "umount", "umountdev"]
+                jobs.append((blk, k, L, ref))
+        refs = {}
+        for (blk, k, L, ref) in jobs:
+            if blk not in refs:
+                rc0, out0, err0, wd0 = common.run_script(ctx, "\n".join(ref) + "\n")
+                refs[blk] = (common.parse_results(out0).get(len(base) + 7) or ["?"])[-1]
+        for (blk, k, L, ref), (rc, out) in zip(jobs, common.pmap(lambda j: one((j[0], j[1], j[2])), jobs)):
+            res = common.parse_results(out)
+            ctx.count(("write-retry", flav, blk, k))
+            ctx.bump("fault:write-retry")
+            inp = {"flavour": flav, "block": blk, "fault": "read #%d of the write call (transient)" % k, "script": L}
+            if rc != 0:
+                ctx.fail("crash", "crash / invalid access (exit %d) after an injected device read failure during a write" % rc, inp, actual=out[-2:])
+                continue
+            w1 = common.kv((res.get(len(base) + 4) or ["?"])[-1])[1]
+            if w1.get("n") != "10":
+                continue          # the fault did not hit the fetch of the next block (the write was complete, or stored nothing)
+            w2 = common.kv((res.get(len(base) + 6) or ["?"])[-1])[1]
+            w3 = common.kv((res.get(len(base) + 8) or ["?"])[-1])[1]
+            # the caller's retry: accepted at once (w2.n = 10; the third write then repeats the same bytes at the same place), or refused (n = 0) and
+            # accepted after the seek - either way the file must end up as if the 10 + 10 bytes had been written without a fault
+            if w2.get("n") not in ("10", "0") or w3.get("n") != "10":
+                ctx.fail("oracle", "the retry of a short write (after the fault cleared, with a seek to the reported position) is not accepted", inp, expected="n=10", actual=(w2, w3))
+                continue
+            got = (res.get(len(base) + 11) or ["?"])[-1]
+            if common.kv(got)[1] != common.kv(refs[blk])[1]:
+                ctx.fail("oracle", "after a write that came back short (the read of the next block failed once) and its retry, the file read back differs from the fault-free result of "
+                                   "the same writes: data that was not being modified is not read back correctly", inp, expected=refs[blk], actual=got)
+        if len(ctx.failures) > 6:
+            return
+
+
 def run(ctx):
     proof = common.proof_status(ctx)
     # call-level correspondence of the handle model the C19_read_returns_only_true_bytes theorem is about, with unreadable blocks in every
@@ -189,6 +282,12 @@ def run(ctx):
                     touched_a = any(A in x for x in g) and kind == "write-side"
                     touched_b = any(B in x for x in g) and kind == "write-side"
                     L += ["fault clear"]
+                    # the files the group itself wrote to: whatever they hold once the group is over, they must hold after a remount and after later
+                    # allocations too (nothing modifies them any more) - handle 7, judged below for stability only
+                    own = [("- %s" % A) if touched_a else None, ("%s %s" % (D, B)) if touched_b else None, ("- %s" % hexs(b"newfile")) if kind == "write-side" else None]
+                    own = [o for o in own if o]
+                    chk_own = [l for o in own for l in ("open 7 %s r" % o, "read 7 %d" % (230 * bs), "close 7")]
+                    L += chk_own
                     vstart = len(L)
                     if not touched_a:
                         L += ["open 5 - %s r" % A, "read 5 %d" % (230 * bs), "close 5"]
@@ -199,6 +298,15 @@ def run(ctx):
                         L += ["open 5 - %s r" % A, "read 5 %d" % (230 * bs), "close 5"]
                     if not touched_b:
                         L += ["open 5 %s %s r" % (D, B), "read 5 %d" % (5 * bs), "close 5"]
+                    L += chk_own
+                    if kind == "write-side":
+                        # ... and still after new allocations on the remounted volume (a bitmap left stale by the fault would hand their blocks out again)
+                        L += ["open 6 - %s w" % hexs(b"later"), "write 6 13 %d" % (60 * bs), "close 6"]
+                        if not touched_a:
+                            L += ["open 5 - %s r" % A, "read 5 %d" % (230 * bs), "close 5"]
+                        if not touched_b:
+                            L += ["open 5 %s %s r" % (D, B), "read 5 %d" % (5 * bs), "close 5"]
+                        L += chk_own
                     L += ["umount", "umountdev"]
                     variant = "adfh-asan" if (ctx.tier == "thorough" or rng.random() < 0.3) else "adfh"
                     jobs.append((oi, rw, k, L, vstart, variant))
@@ -291,6 +399,29 @@ def run(ctx):
                                 full[which] = key
                             elif full[which] != key:
                                 ctx.fail("oracle", "a bystander file reads differently after remount", inp, expected=full[which], actual=key)
+                    # (4) the files the group wrote to: stable from the end of the group on (same session, after remount, after later allocations) -
+                    #     when the application got a clean close of its handle (a file whose own last call failed is not judged)
+                    seen = {}
+                    closes = [j for j, cmd in enumerate(g) if cmd == "close 1"]
+                    clean_close = False
+                    if closes:
+                        j = closes[-1]
+                        lj = len(base) + j + 1 + (1 if j >= oi else 0) + (1 if j > oi else 0)
+                        # (adfFileClose reports nothing: the close counts as clean when no fault was injected into it)
+                        clean_close = (res.get(lj) or ["?"])[-1].startswith("ok") and oi < j
+                    for ln in (range(1, len(L) + 1) if clean_close else ()):
+                        cmd = L[ln - 1]
+                        if cmd.startswith("open 7 "):
+                            name7 = cmd[7:-2]
+                            ro = (res.get(ln) or ["?"])[-1]
+                            rr = (res.get(ln + 1) or ["?"])[-1] if ro.startswith("ok") else "not-there"
+                            key7 = (common.kv(rr)[1].get("n", "?") + ":" + common.kv(rr)[1].get("fnv", "?")) if rr != "not-there" else rr
+                            if name7 not in seen:
+                                seen[name7] = key7
+                            elif seen[name7] != key7:
+                                ctx.fail("oracle", "a file written before the fault cleared reads differently later on (after a remount / after new allocations) although nothing modified it: "
+                                                   "data that was not being modified is not read back correctly", dict(inp, file=name7), expected=seen[name7], actual=key7)
+                                break
                     if len(ctx.samples) < 3:
                         ctx.sample({"flavour": flav, "faulted_operation": g[oi], "fault": "%s #%d" % (rw, k)})
                     if len(ctx.failures) > 6:
@@ -303,6 +434,8 @@ def run(ctx):
             break
     if len(ctx.failures) <= 6:
         seek_then_modify(ctx)
+    if len(ctx.failures) <= 6:
+        burst_and_retry(ctx)
     rule = ("base volume with a 75-block file and a small file in a subdirectory; target groups: sequential/positioned reads across block and extension boundaries, "
             "listings and lookups (hash and cache), overwrite, create, mkdir/delete/move, truncate/comment; for each call of a group one run per device read and per "
             "device write it performs with exactly that transfer failing (all of them, all six flavours, both tiers); distinct = (flavour, group, call, transfer)")
